@@ -200,6 +200,9 @@ pub fn run_isolated(
 /// Called at worker start: limit the address space so that a runaway allocation kills the worker
 /// (a finding of the job in flight) instead of the machine.
 pub fn limit_address_space(gib: u64) {
+	if gib == 0 {
+		return; // AddressSanitizer reserves terabytes of shadow address space
+	}
 	let lim = libc::rlimit { rlim_cur: gib << 30, rlim_max: gib << 30 };
 	// SAFETY: plain setrlimit call with a valid struct.
 	unsafe {
